@@ -926,10 +926,15 @@ def run(ctx):
         if case['pos_kind'] in ('far', 'double-far') or not case['lat']:
             continue
         kx, ky = rng.randint(-7, 7), rng.randint(-7, 7)
-        a1 = make_aperture(case)
-        a2 = make_aperture(dict(case, px=case['px'] + kx, py=case['py'] + ky))
-        m1 = a1.to_mask(method=case['method'], subpixels=case['sub'])
-        m2 = a2.to_mask(method=case['method'], subpixels=case['sub'])
+        try:
+            a1 = make_aperture(case)
+            a2 = make_aperture(dict(case, px=case['px'] + kx, py=case['py'] + ky))
+            m1 = a1.to_mask(method=case['method'], subpixels=case['sub'])
+            m2 = a2.to_mask(method=case['method'], subpixels=case['sub'])
+        except Exception as e:   # noqa: BLE001
+            ctx.violation(f'to_mask:{case["fam"]}:raises', f'to_mask raises {type(e).__name__}: {e}',
+                          mask_rep(case, 'compiled'))
+            continue
         ctx.count_case(['shift', case_key(case), kx, ky])
         same = (m2.bbox.ixmin - m1.bbox.ixmin, m2.bbox.ixmax - m1.bbox.ixmax, m2.bbox.iymin - m1.bbox.iymin,
                 m2.bbox.iymax - m1.bbox.iymax) == (kx, kx, ky, ky) and np.array_equal(m1.data, m2.data)
@@ -953,7 +958,12 @@ def run(ctx):
         elif r_ < 0.38:   # zero-size images
             ny, nx = rng.choice([(0, nx), (ny, 0), (0, 0)])
         bb_ = BoundingBox(*b)
-        sl, ss = bb_.get_overlap_slices((ny, nx))
+        try:
+            sl, ss = bb_.get_overlap_slices((ny, nx))
+        except Exception as e:   # noqa: BLE001
+            ctx.violation('get_overlap_slices:raises', f'get_overlap_slices raises {type(e).__name__}: {e}',
+                          dict(kind='slices', box=list(b), shape=[ny, nx]))
+            continue
         msg = slices_oracle(b, (ny, nx), sl, ss)
         ctx.count_case(['slices', b, ny, nx], sl is not None)
         ctx.stat('slices', 'None' if sl is None else 'overlap')
@@ -968,8 +978,13 @@ def run(ctx):
         x1, y1 = rng.randint(-8, 12), rng.randint(-8, 12)
         b2 = (x1, x1 + rng.randint(1, 9), y1, y1 + rng.randint(1, 9))
         bb2 = BoundingBox(*b2)
-        u = bb_ | bb2
-        it = bb_ & bb2
+        try:
+            u = bb_ | bb2
+            it = bb_ & bb2
+        except Exception as e:   # noqa: BLE001
+            ctx.violation('BoundingBox:union/intersection', f'union/intersection raises {type(e).__name__}: {e}',
+                          dict(kind='boxalg', a=list(b), b=list(b2)))
+            continue
         ut = (u.ixmin, u.ixmax, u.iymin, u.iymax)
         msg = boxalg_oracle(b, b2, ut, None if it is None else (it.ixmin, it.ixmax, it.iymin, it.iymax))
         if msg:
@@ -991,7 +1006,12 @@ def run(ctx):
         if generic and any(abs((v + 0.5) - round(v + 0.5)) < 1e-9 for v in xs + ys):
             ctx.stat('excluded', 'from_float-edge-tie-undecided-in-floats')
             continue
-        f = BoundingBox.from_float(xs[0], xs[1], ys[0], ys[1])
+        try:
+            f = BoundingBox.from_float(xs[0], xs[1], ys[0], ys[1])
+        except Exception as e:   # noqa: BLE001
+            ctx.violation('BoundingBox.from_float:not-minimal', f'from_float raises {type(e).__name__}: {e}',
+                          dict(kind='from_float', args=[xs[0], xs[1], ys[0], ys[1]]))
+            continue
         ft = (f.ixmin, f.ixmax, f.iymin, f.iymax)
         ctx.count_case(['from_float', xs, ys])
         ctx.stat('from_float', 'generic-double' if generic else f'dyadic/{den}')
@@ -1050,12 +1070,15 @@ def run(ctx):
 def to_image_check(rep):
     from photutils.aperture import CircularAperture
     ny, nx = rep['shape']
-    m = CircularAperture(tuple(rep['pos']), r=rep['r']).to_mask(method='center')
-    b = (m.bbox.ixmin, m.bbox.ixmax, m.bbox.iymin, m.bbox.iymax)
-    common = {(y, x) for y in range(max(b[2], 0), min(b[3], ny)) for x in range(max(b[0], 0), min(b[1], nx))}
-    img = m.to_image((ny, nx))
     data = np.arange(ny * nx, dtype=float).reshape(ny, nx) + 1
-    cut = m.cutout(data, fill_value=-7.0)
+    try:
+        m = CircularAperture(tuple(rep['pos']), r=rep['r']).to_mask(method='center')
+        b = (m.bbox.ixmin, m.bbox.ixmax, m.bbox.iymin, m.bbox.iymax)
+        img = m.to_image((ny, nx))
+        cut = m.cutout(data, fill_value=-7.0)
+    except Exception as e:   # noqa: BLE001
+        return f'to_mask/to_image/cutout raises {type(e).__name__}: {e}'
+    common = {(y, x) for y in range(max(b[2], 0), min(b[3], ny)) for x in range(max(b[0], 0), min(b[1], nx))}
     if not common:
         return None if (img is None and cut is None) else 'no common pixel but to_image/cutout is not None'
     if img is None or cut is None:
@@ -1125,6 +1148,13 @@ def box_replay(r, verbose=True):
     """slices / from_float / union+intersection inputs against their pixel-set oracles"""
     from photutils.aperture import BoundingBox
     kind = r['kind']
+    try:
+        return _box_replay(r, verbose, BoundingBox, kind)
+    except Exception as e:   # noqa: BLE001
+        return f'raises {type(e).__name__}: {e}'
+
+
+def _box_replay(r, verbose, BoundingBox, kind):
     if kind == 'slices':
         sl, ss = BoundingBox(*r['box']).get_overlap_slices(tuple(r['shape']))
         if verbose:
